@@ -59,8 +59,27 @@ theorem setStatus_inv (m : Mon) (sid : Nat) (st : SStatus) (h : MInv m) : MInv (
   intro s hs
   exact h3 s (findStream_mem _ _ _ hs)
 
+theorem updStatus_inv (ss : List StreamSt) (sid : Nat) (g : StreamSt → SStatus) (h3 : ∀ s ∈ ss, SInv s) :
+    ∀ s ∈ updStream ss sid (fun s => { s with status := g s }), SInv s := by
+  apply updStream_forall SInv _ _ _ h3
+  intro s hs
+  exact h3 s (findStream_mem _ _ _ hs)
+
+theorem connOnlyAct_inv (m : Mon) (sid : Nat) (L : Int) (hL : 0 ≤ L) (h : MInv m) :
+    MInv (connOnlyAct m sid L).m := by
+  obtain ⟨h1, h2, h3, h4⟩ := h
+  unfold connOnlyAct
+  split
+  · exact ⟨h1, h2, h3, h4⟩
+  · refine ⟨by simp only; omega, h2, ?_, by simp only; omega⟩
+    simp only
+    split
+    · exact updStatus_inv _ _ (fun _ => .closed) h3
+    · exact h3
+
 theorem dataAct_inv (m : Mon) (sid : Nat) (len pad : Int) (es : Bool) (h : MInv m) :
     MInv (dataAct m sid len pad es).m := by
+  have h0 := h
   obtain ⟨h1, h2, h3, h4⟩ := h
   unfold dataAct
   by_cases hv : len < 0 ∨ pad < -1
@@ -72,35 +91,33 @@ theorem dataAct_inv (m : Mon) (sid : Nat) (len pad : Int) (es : Bool) (h : MInv 
     | none => exact ⟨h1, h2, h3, h4⟩
     | some st =>
       have hst := h3 st (findStream_mem _ _ _ hf)
-      have connOnly : MInv (if flowLen len pad > m.conn then (⟨m, some sid⟩ : ActOut)
-          else ⟨{ m with conn := m.conn - flowLen len pad, sumData := m.sumData + flowLen len pad }, none⟩).m := by
-        split
-        · exact ⟨h1, h2, h3, h4⟩
-        · exact ⟨by simp only; omega, h2, h3, by simp only; omega⟩
+      have connOnly := connOnlyAct_inv m sid (flowLen len pad) hL h0
       simp only
       cases hs : st.status with
       | closed => exact connOnly
       | halfRemote => exact connOnly
+      | preHeaders => exact connOnly
       | open_ =>
         simp only
         split
         · exact connOnly
         · split
           · refine ⟨h1, h2, ?_, h4⟩
-            apply updStream_forall SInv _ _ _ h3
-            intro s hs'
-            exact h3 s (findStream_mem _ _ _ hs')
+            exact updStatus_inv _ _ (fun s => if es then endedStatus m s else s.status) h3
           · split
-            · exact ⟨h1, h2, h3, h4⟩
-            · refine ⟨by simp only; omega, h2, ?_, by simp only; omega⟩
-              apply updStream_forall SInv _ _ _ h3
-              intro s hs'
-              have := h3 s (findStream_mem _ _ _ hs')
-              unfold SInv at *
-              simp only
-              constructor
-              · omega
-              · split <;> omega
+            · exact connOnly
+            · split
+              · exact ⟨h1, h2, h3, h4⟩
+              · unfold acceptAct
+                refine ⟨by simp only; omega, h2, ?_, by simp only; omega⟩
+                apply updStream_forall SInv _ _ _ h3
+                intro s hs'
+                have := h3 s (findStream_mem _ _ _ hs')
+                unfold SInv at *
+                simp only
+                constructor
+                · omega
+                · split <;> omega
 
 theorem actStep_inv (m : Mon) (a : Act) (h : MInv m) : MInv (actStep m a).m := by
   cases a with
@@ -121,9 +138,38 @@ theorem actStep_inv (m : Mon) (a : Act) (h : MInv m) : MInv (actStep m a).m := b
       · subst e
         exact ⟨h2, by simp⟩
       · exact h3 s e
+  | treset c s =>
+    simp only [actStep]
+    split
+    · constructor <;> simp [Mon.init, initialWindowSize, maxWindow]
+    · rename_i hs
+      constructor <;> (try simp [Mon.init, initialWindowSize, maxWindow, SInv]) <;> (try (unfold maxWindow at hs; omega))
+  | req sid kind =>
+    simp only [actStep]
+    obtain ⟨h1, h2, h3, h4⟩ := h
+    split
+    · exact ⟨h1, h2, h3, h4⟩
+    · refine ⟨h1, h2, ?_, h4⟩
+      intro s hs
+      rcases List.mem_cons.mp hs with e | e
+      · subst e
+        exact ⟨h2, by simp⟩
+      · exact h3 s e
+  | rhdr sid es =>
+    obtain ⟨h1, h2, h3, h4⟩ := h
+    refine ⟨h1, h2, ?_, h4⟩
+    apply updStream_forall SInv _ _ _ h3
+    intro s hs
+    have := h3 s (findStream_mem _ _ _ hs)
+    by_cases hp : s.status = .preHeaders
+    · simp only [hp, if_true]; exact this
+    · simp only [hp, if_false]; exact this
   | data sid len pad es => exact dataAct_inv m sid len pad es h
   | read _ => exact h
   | bclose sid =>
+    simp only [actStep]
+    split
+    · exact setStatus_inv m sid _ h
     obtain ⟨h1, h2, h3, h4⟩ := h
     refine ⟨h1, h2, ?_, h4⟩
     apply updStream_forall SInv _ _ _ h3
@@ -203,6 +249,11 @@ theorem obsStep_inv (fc : Option Nat) (m m' : Mon) (o : Obs) (h : MInv m) (hs : 
           cases hs
           exact ⟨h1, h2, hstr, h4⟩
   | crst sid => simp only [obsStep] at hs; cases hs; exact setStatus_inv m sid _ ⟨h1, h2, h3, h4⟩
+  | connerr code =>
+    simp only [obsStep] at hs
+    split at hs
+    · cases hs
+    · cases hs; exact ⟨h1, h2, h3, h4⟩
   | closed => simp only [obsStep] at hs; cases hs; exact ⟨h1, h2, h3, h4⟩
   | skipped => simp only [obsStep] at hs; cases hs; exact ⟨h1, h2, h3, h4⟩
   | other => simp only [obsStep] at hs; cases hs; exact ⟨h1, h2, h3, h4⟩
@@ -267,6 +318,7 @@ theorem lineStep_inv (m m' : Mon) (l : Line) (h : MInv m) (hs : lineStep m l = .
   unfold lineStep at hs
   split at hs
   · exact resetLine_inv m m' l h hs
+  · exact resetLine_inv m m' l h hs
   · split at hs
     · cases hs; exact h
     · split at hs
@@ -321,8 +373,40 @@ theorem obsFold_fc (fc : Option Nat) (obs : List Obs) (m m' : Mon) (hs : obsFold
             · exact absurd (And.intro (by trivial) hfc) hc
         · exact ih m1 hs e
 
-theorem obsFold_no_goaway_fc (fc : Option Nat) (obs : List Obs) (m m' : Mon) (hs : obsFold fc m obs = .ok m')
-    (hd : m'.dead = false) : Obs.goaway errFlowControl ∉ obs := by
+/-- Every FLOW_CONTROL_ERROR observation the monitor processes is checked against the stream
+(0 = connection) on which the current line's DATA frame exceeded a window. -/
+theorem obsStep_fc (fc : Option Nat) (m m' : Mon) :
+    (∀ sid, obsStep fc m (.rst sid errFlowControl) = .ok m' → fc = some sid) ∧
+    (obsStep fc m (.goaway errFlowControl) = .ok m' → fc = some 0) ∧
+    (obsStep fc m (.connerr errFlowControl) = .ok m' → fc = some 0) := by
+  refine ⟨fun sid ho => ?_, fun ho => ?_, fun ho => ?_⟩
+  · simp only [obsStep] at ho
+    split at ho
+    · cases ho
+    · rename_i hc
+      by_cases hfc : fc = some sid
+      · exact hfc
+      · exact absurd (And.intro (by trivial) hfc) hc
+  · simp only [obsStep] at ho
+    split at ho
+    · cases ho
+    · rename_i hc
+      by_cases hfc : fc = some 0
+      · exact hfc
+      · exact absurd (And.intro (by trivial) hfc) hc
+  · simp only [obsStep] at ho
+    split at ho
+    · cases ho
+    · rename_i hc
+      by_cases hfc : fc = some 0
+      · exact hfc
+      · exact absurd (And.intro (by trivial) hfc) hc
+
+/-- Unless the line's DATA frame exceeded a window of a Transport (`fc = some 0`), a trace
+line that leaves the connection alive shows no connection-level FLOW_CONTROL_ERROR. -/
+theorem obsFold_no_conn_fc (fc : Option Nat) (obs : List Obs) (m m' : Mon) (hs : obsFold fc m obs = .ok m')
+    (hd : m'.dead = false) (hfc : fc ≠ some 0) :
+    Obs.goaway errFlowControl ∉ obs ∧ Obs.connerr errFlowControl ∉ obs := by
   induction obs generalizing m with
   | nil => simp
   | cons o rest ih =>
@@ -336,10 +420,17 @@ theorem obsFold_no_goaway_fc (fc : Option Nat) (obs : List Obs) (m m' : Mon) (hs
       | error e => simp only [ho] at hs; cases hs
       | ok m1 =>
         simp only [ho] at hs
-        intro hmem
-        rcases List.mem_cons.mp hmem with e | e
-        · subst e
-          simp [obsStep] at ho
-        · exact ih m1 hs e
+        have ih' := ih m1 hs
+        constructor
+        · intro hmem
+          rcases List.mem_cons.mp hmem with e | e
+          · subst e
+            exact hfc ((obsStep_fc fc m m1).2.1 ho)
+          · exact ih'.1 e
+        · intro hmem
+          rcases List.mem_cons.mp hmem with e | e
+          · subst e
+            exact hfc ((obsStep_fc fc m m1).2.2 ho)
+          · exact ih'.2 e
 
 end NetVerif.Proofs.FlowMon
